@@ -1,1 +1,554 @@
-/-! # C13 — property theorems (not built yet) -/
+import RsMatterVerif.Lemmas.Subs
+/-!
+# C13 — a subscriber eventually learns every change it subscribed to
+
+Theorems over `Model/Subs.lean` (the repaired `im/subscriptions.rs`).
+
+* (1) `cov_preserved`, `cov_run`: the coverage invariant `Subs.Cov` (+ well-formedness `Subs.WF`)
+  holds initially and is preserved by every operation — a change a live subscriber (in the table
+  **or in flight**) has not seen stays covered by a pending entry with an id at least as large.
+* (2) `owed_in_report`, `owed_is_pending`, `pending_is_reportable`, `report_progress`,
+  `wake_not_late`: an owed change is in the report filter, makes the subscription reportable as
+  soon as the minimum interval allows, a report is then begun, and the reporter's wake-up is not
+  later than that instant.
+* (3) `retry_keeps_content`, `retry_same_filter`, `keep_commits_snapshot`.
+* (4) `min_interval_respected`, `retry_gate_respected`, `liveness_due`, `liveness_before_max`,
+  `wake_before_max`, `failing_sub_expires_by_max`, `retry_preserves_expiry`,
+  `expiry_sweep_removes`, `backoff_capped`.
+* (5) `change_table_capacity`, `change_id_monotone`, `sub_id_fresh`, `table_capacity`.
+* (6) `event_pending_iff`, `events_not_pending_after_keep`.
+* counter-examples for the two defects of the unrepaired code: `purgeOld_breaks_cov`,
+  `reportCompleteOld_drops_wrong_sub`.
+* eventuality: `C13_full` is *stated* (needs a fairness hypothesis about the reporter task and the
+  transport, which are outside the model); `C13_eventual_partial` is what is proved.
+-/
+namespace C13
+open Subs
+
+/-! ## (1) coverage invariant -/
+
+theorem inv_init (hz n : Nat) : WF (State.new hz n) ∧ Cov (State.new hz n) :=
+  ⟨wf_init hz n, cov_init hz n⟩
+
+/-- every operation preserves well-formedness and coverage (change ids do not wrap) -/
+theorem cov_preserved {s : State} (op : Op) (h : WF s) (hc : Cov s)
+    (hw : s.changed.nextId + 1 < U64) : WF (s.step op) ∧ Cov (s.step op) :=
+  inv_step op h hc hw
+
+example : ∃ s : State, WF s ∧ Cov s ∧ s.changed.nextId + 1 < U64 :=
+  ⟨State.new 1000000 2, wf_init _ _, cov_init _ _, by decide⟩
+
+/-- an operation raises the change-id counter by at most one -/
+theorem nextId_step_le {s : State} (op : Op) (h : WF s) (hw : s.changed.nextId + 1 < U64) :
+    (s.step op).changed.nextId ≤ s.changed.nextId + 1 := by
+  cases op with
+  | change p =>
+    have := (recordRaw_spec s.changed p h.idsBelow h.cap hw).1
+    simp only [State.step, State.change]; omega
+  | add now fab peer mn mx ev =>
+    simp only [State.step, State.add]; split <;> simp
+  | report now ev =>
+    simp only [State.step]
+    rcases report_shape (s := s) (now := now) (ev := ev) with h1 | ⟨i, sub, _, h1⟩
+    · rw [h1]; omega
+    · rw [h1]; simp [reportTo]
+  | fin id f =>
+    simp only [State.step]
+    rcases fin_shape (s := s) (id := id) (f := f) with h1 | ⟨c, _, sub', _, hsh, _⟩
+    · rw [h1]; omega
+    · rcases hsh with ⟨r, cx, h1⟩ | ⟨r, cx, h1⟩ <;> rw [h1] <;> simp [rcKeep, rcDrop]
+  | remove p =>
+    simp only [State.step]
+    obtain ⟨cx, h1⟩ := remove_shape s p
+    rw [h1]; simp [rmTo]
+  | purge =>
+    simp only [State.step, State.purge]
+    repeat' split
+    all_goals simp
+
+/-- the invariant holds along every finite history (fewer than 2^64 changes) -/
+theorem cov_run (ops : List Op) : ∀ (s : State), WF s → Cov s →
+    s.changed.nextId + ops.length < U64 → WF (s.run ops) ∧ Cov (s.run ops) := by
+  induction ops with
+  | nil => intro s h hc _; exact ⟨h, hc⟩
+  | cons op ops ih =>
+    intro s h hc hw
+    simp only [List.length_cons] at hw
+    have hs := inv_step op h hc (by omega)
+    have hn := nextId_step_le op h (by omega)
+    exact ih (s.step op) hs.1 hs.2 (by omega)
+
+/-- every history from the empty table -/
+theorem cov_always (hz n : Nat) (ops : List Op) (hlen : ops.length + 1 < U64) :
+    Cov ((State.new hz n).run ops) :=
+  (cov_run ops _ (wf_init hz n) (cov_init hz n) (by simp [State.new, Changed.new]; omega)).2
+
+/-! ## (2) an owed change is reported -/
+
+/-- **No change is lost**: while a report context of a (primed) subscription is alive, every change
+recorded after the subscription's watermark is selected by `should_report_attr`, for every concrete
+attribute the change touches. -/
+theorem owed_in_report {s : State} (hc : Cov s) {c : Ctx} (hcm : c ∈ s.ctxs) {i : Nat} {p : Entry}
+    (hlog : (i, p) ∈ s.log) (hlt : c.sub.seenAttr < i) {ep cl attr : Nat}
+    (hm : p.matchesPath ep cl attr = true) : s.shouldReportAttr c ep cl attr = true := by
+  unfold State.shouldReportAttr
+  split
+  · rfl
+  · have hl : c.sub ∈ s.live := by
+      simp only [State.live, List.mem_append, List.mem_map]; right; exact ⟨c, hcm, rfl⟩
+    obtain ⟨e, he, h1, h2⟩ := hc c.sub hl (i, p) hlog hlt
+    unfold containsSince
+    rw [List.any_eq_true]
+    refine ⟨e, he, ?_⟩
+    simp only [Bool.and_eq_true, decide_eq_true_eq]
+    exact ⟨by simp only at h2; omega, matchesPath_of_covers h1 hm⟩
+
+/-- an owed change keeps a subscription in the table pending -/
+theorem owed_is_pending {s : State} (hc : Cov s) {x : Sub} (hx : x ∈ s.subs) {i : Nat} {p : Entry}
+    (hlog : (i, p) ∈ s.log) (hlt : x.seenAttr < i) (ev : Nat) :
+    x.pending s.changed.entries ev = true := by
+  obtain ⟨e, he, _, h2⟩ := hc x (by simp [State.live, hx]) (i, p) hlog hlt
+  unfold Sub.pending anySince
+  rw [Bool.or_eq_true]; left
+  rw [List.any_eq_true]
+  exact ⟨e, he, by simp only [decide_eq_true_eq]; simp only at h2; omega⟩
+
+/-- pending ⇒ reportable as soon as the minimum interval (and the retry gate) allow -/
+theorem pending_is_reportable (hz : Nat) (x : Sub) (now : Nat) (es : List Entry) (ev : Nat)
+    (hp : x.pending es ev = true) (ha : x.reportAllowedAt hz ≤ now) :
+    x.isReportable hz now es ev = true := by
+  simp [Sub.isReportable, hp, ha]
+
+/-- if some subscription in the table is reportable, `report` begins a report -/
+theorem report_progress {s : State} {now ev : Nat}
+    (h : ∃ x ∈ s.subs, x.isReportable s.hz now s.changed.entries ev = true) :
+    (s.report now ev).2 ≠ none := by
+  obtain ⟨x, hx, hr⟩ := h
+  unfold State.report findReportable
+  cases hf : s.subs.findIdx? (fun x => x.isReportable s.hz now s.changed.entries ev) with
+  | none =>
+    have := List.findIdx?_eq_none_iff.mp hf x hx
+    simp [hr] at this
+  | some i =>
+    simp only
+    have hi : i < s.subs.length := (List.findIdx?_eq_some_iff_findIdx_eq.mp hf).1
+    rw [List.getElem?_eq_getElem hi]
+    simp
+
+/-- the report that is begun is for a subscription of the table that is reportable -/
+theorem reported_is_reportable {s : State} {now ev id : Nat} (h : (s.report now ev).2 = some id) :
+    ∃ x ∈ s.subs, x.id = id ∧ x.isReportable s.hz now s.changed.entries ev = true := by
+  unfold State.report findReportable at h
+  cases hf : s.subs.findIdx? (fun x => x.isReportable s.hz now s.changed.entries ev) with
+  | none => rw [hf] at h; simp at h
+  | some i =>
+    rw [hf] at h
+    simp only at h
+    cases hs : s.subs[i]? with
+    | none => rw [hs] at h; simp at h
+    | some sub =>
+      rw [hs] at h; simp at h
+      refine ⟨sub, List.mem_of_getElem? hs, h, ?_⟩
+      have := List.findIdx?_eq_some_iff_getElem.mp hf
+      obtain ⟨hi, hp, _⟩ := this
+      have : s.subs[i] = sub := by
+        rw [List.getElem?_eq_getElem hi] at hs; simpa using hs
+      rw [← this]; exact hp
+
+/-- the reporter's wake-up instant is not later than the instant a pending subscription may report -/
+theorem wake_not_late {s : State} {x : Sub} (hx : x ∈ s.subs) (ev : Nat)
+    (hp : x.pending s.changed.entries ev = true) : s.nextReportAt ev ≤ x.reportAllowedAt s.hz := by
+  unfold State.nextReportAt
+  have hmem : x.nextReportAt s.hz s.changed.entries ev ∈
+      s.subs.map (fun x => x.nextReportAt s.hz s.changed.entries ev) := List.mem_map.mpr ⟨x, hx, rfl⟩
+  cases hm : minList (s.subs.map (fun x => x.nextReportAt s.hz s.changed.entries ev)) with
+  | none => rw [minList_none hm] at hmem; simp at hmem
+  | some m =>
+    simp only
+    have := minList_le hm _ hmem
+    simp only [Sub.nextReportAt, hp, if_true] at this
+    exact this
+
+/-! ## (3) a failed report is retried with the same content -/
+
+/-- `set_keep_retry` commits the watermarks and the last-success instant unchanged -/
+theorem retry_keeps_content (hz : Nat) (c : Ctx) :
+    (c.setKeepRetry hz).commit.seenAttr = c.sub.seenAttr ∧
+    (c.setKeepRetry hz).commit.seenEv = c.sub.seenEv ∧
+    (c.setKeepRetry hz).commit.reportedAt = c.sub.reportedAt ∧
+    (c.setKeepRetry hz).commit.id = c.sub.id ∧
+    (c.setKeepRetry hz).commit.minInt = c.sub.minInt ∧
+    (c.setKeepRetry hz).commit.maxInt = c.sub.maxInt ∧
+    (c.setKeepRetry hz).commit.fail = min (c.sub.fail + 1) 255 := by
+  simp [Ctx.setKeepRetry, Ctx.commit]
+
+/-- the report filter depends only on the watermark and the priming marker, so the retried report
+selects (at least) what the failed one selected: together with `owed_in_report` (which holds in every
+later state) nothing that was owed is considered sent -/
+theorem retry_same_filter (s : State) (c c' : Ctx) (h1 : c'.sub.seenAttr = c.sub.seenAttr)
+    (h2 : c'.sub.reportedAt = c.sub.reportedAt) (ep cl attr : Nat) :
+    s.shouldReportAttr c' ep cl attr = s.shouldReportAttr c ep cl attr := by
+  simp [State.shouldReportAttr, h1, h2]
+
+/-- `set_keep` commits the snapshot taken when the report began -/
+theorem keep_commits_snapshot (c : Ctx) :
+    c.commit.seenAttr = c.nextAttr ∧ c.commit.seenEv = c.nextEv ∧
+    c.commit.reportedAt = c.nextReportedAt := by
+  simp [Ctx.commit]
+
+/-! ## (4) timing -/
+
+/-- no report before the minimum interval after the last delivered one -/
+theorem min_interval_respected (hz : Nat) (x : Sub) (now : Nat) (es : List Entry) (ev : Nat)
+    (hprimed : x.reportedAt ≠ IMAX) (hno : x.reportedAt + x.minInt * hz ≤ IMAX)
+    (hr : x.isReportable hz now es ev = true) : x.reportedAt + x.minInt * hz ≤ now := by
+  simp only [Sub.isReportable, Bool.and_eq_true, decide_eq_true_eq] at hr
+  have h1 := hr.1
+  have h2 : x.reportedAt + x.minInt * hz ≤ x.reportAllowedAt hz := by
+    unfold Sub.reportAllowedAt
+    simp only [hprimed, if_false, checkedAdd, hno, if_true]
+    exact Nat.le_max_left _ _
+  omega
+
+example : ∃ x : Sub, x.reportedAt ≠ IMAX ∧ x.reportedAt + x.minInt * 1000000 ≤ IMAX ∧
+    x.isReportable 1000000 5000000 [] 1 = true :=
+  ⟨{ id := 1, fab := 1, peer := 1, minInt := 1, maxInt := 60, reportedAt := 0, retryAt := 0, fail := 0,
+     seenAttr := 0, seenEv := 0 }, by decide, by decide, by rfl⟩
+
+/-- no report before the retry back-off has elapsed -/
+theorem retry_gate_respected (hz : Nat) (x : Sub) (now : Nat) (es : List Entry) (ev : Nat)
+    (hr : x.isReportable hz now es ev = true) : x.retryAt ≤ now := by
+  simp only [Sub.isReportable, Bool.and_eq_true, decide_eq_true_eq] at hr
+  have h1 := hr.1
+  have h2 : x.retryAt ≤ x.reportAllowedAt hz := by
+    unfold Sub.reportAllowedAt
+    exact Nat.le_max_right _ _
+  omega
+
+/-- the liveness point: half of the maximum interval after the last delivered report the
+subscription is reportable even with nothing pending (as soon as min interval / retry gate allow) -/
+theorem liveness_due (hz : Nat) (x : Sub) (now : Nat) (es : List Entry) (ev : Nat)
+    (hno : x.reportedAt + (x.maxInt - x.maxInt / 2) * hz ≤ IMAX)
+    (ha : x.reportAllowedAt hz ≤ now)
+    (hd : x.reportedAt + (x.maxInt - x.maxInt / 2) * hz ≤ now) :
+    x.isReportable hz now es ev = true := by
+  have : x.reportDueAt hz ≤ now := by
+    unfold Sub.reportDueAt
+    split
+    · omega
+    · simp only [checkedAdd, hno, if_true]; exact hd
+  simp [Sub.isReportable, ha, this]
+
+/-- the liveness point lies before the maximum interval elapses (strictly for `max_int ≥ 2`) -/
+theorem liveness_before_max (hz maxInt : Nat) :
+    (maxInt - maxInt / 2) * hz ≤ maxInt * hz ∧
+    (2 ≤ maxInt → 0 < hz → (maxInt - maxInt / 2) * hz < maxInt * hz) := by
+  constructor
+  · exact Nat.mul_le_mul_right _ (Nat.sub_le _ _)
+  · intro h2 hz0
+    exact Nat.mul_lt_mul_of_pos_right (by omega) hz0
+
+/-- the reporter wakes for a primed subscription no later than the maximum interval after its
+last delivered report, unless the minimum interval / retry gate is later still -/
+theorem wake_before_max {s : State} {x : Sub} (hx : x ∈ s.subs) (ev : Nat)
+    (hno : x.reportedAt + x.maxInt * s.hz ≤ IMAX) :
+    s.nextReportAt ev ≤ max (x.reportAllowedAt s.hz) (x.reportedAt + x.maxInt * s.hz) := by
+  unfold State.nextReportAt
+  have hmem : x.nextReportAt s.hz s.changed.entries ev ∈
+      s.subs.map (fun x => x.nextReportAt s.hz s.changed.entries ev) := List.mem_map.mpr ⟨x, hx, rfl⟩
+  cases hm : minList (s.subs.map (fun x => x.nextReportAt s.hz s.changed.entries ev)) with
+  | none => rw [minList_none hm] at hmem; simp at hmem
+  | some m =>
+    simp only
+    have h1 := minList_le hm _ hmem
+    have hmono := (liveness_before_max s.hz x.maxInt).1
+    have hdue : x.reportDueAt s.hz ≤ x.reportedAt + x.maxInt * s.hz := by
+      unfold Sub.reportDueAt
+      split
+      · omega
+      · have hno' : x.reportedAt + (x.maxInt - x.maxInt / 2) * s.hz ≤ IMAX := by omega
+        simp only [checkedAdd, hno', if_true]; omega
+    unfold Sub.nextReportAt at h1
+    split at h1 <;> omega
+
+/-- one maximum interval after its last delivered report a subscription is expired -/
+theorem failing_sub_expires_by_max (hz : Nat) (x : Sub) (now : Nat) (hnow : now ≤ IMAX)
+    (h : x.reportedAt + x.maxInt * hz ≤ now) : x.isExpired hz now = true := by
+  have : x.reportedAt + x.maxInt * hz ≤ IMAX := by omega
+  simp [Sub.isExpired, checkedAdd, this, h]
+
+example : ∃ x : Sub, x.reportedAt + x.maxInt * 1000000 ≤ 70000000 :=
+  ⟨{ id := 1, fab := 1, peer := 1, minInt := 1, maxInt := 60, reportedAt := 0, retryAt := 0, fail := 0,
+     seenAttr := 0, seenEv := 0 }, by decide⟩
+
+/-- failed attempts do not postpone the expiry: `set_keep_retry` leaves `reported_at` and
+`max_int` alone, so `is_expired` answers the same before and after any number of retries -/
+theorem retry_preserves_expiry (hz : Nat) (c : Ctx) (now : Nat) :
+    (c.setKeepRetry hz).commit.isExpired hz now = c.sub.isExpired hz now := by
+  simp [Sub.isExpired, Ctx.setKeepRetry, Ctx.commit]
+
+/-- the expiry sweep of the reporter loop leaves no expired subscription in the table -/
+theorem expiry_sweep_removes (s : State) (now : Nat) :
+    ∀ x ∈ (s.remove (fun x => x.isExpired s.hz now)).1.subs, x.isExpired s.hz now = false := by
+  obtain ⟨cx, h1⟩ := remove_shape s (fun x => x.isExpired s.hz now)
+  rw [h1]
+  intro x hx
+  exact removeLoop_all _ (s.subs.length + 1) s.subs s.count (by omega) x hx
+
+/-- the retry back-off never exceeds the maximum interval (or the base delay) -/
+theorem backoff_capped (fail maxInt : Nat) :
+    retryBackoffSecs fail maxInt ≤ max maxInt Consts.retryBaseSecs := by
+  unfold retryBackoffSecs
+  exact Nat.min_le_right _ _
+
+/-- a not yet primed subscription is reportable as soon as its retry gate allows -/
+theorem unprimed_is_due (hz : Nat) (x : Sub) (now : Nat) (es : List Entry) (ev : Nat)
+    (hu : x.reportedAt = IMAX) (hg : x.retryAt ≤ now) : x.isReportable hz now es ev = true := by
+  simp [Sub.isReportable, Sub.reportAllowedAt, Sub.reportDueAt, hu, hg]
+
+/-! ## (5) capacity and id monotonicity -/
+
+theorem change_table_capacity {s : State} (h : WF s) : s.changed.entries.length ≤ Consts.maxChangedAttrs :=
+  h.cap
+
+theorem change_id_monotone {s : State} (p : Entry) (h : WF s) (hw : s.changed.nextId + 1 < U64) :
+    (s.change p).changed.nextId = s.changed.nextId + 1 ∧
+    (s.change p).log.head? = some (s.changed.nextId, p) := by
+  refine ⟨(recordRaw_spec s.changed p h.idsBelow h.cap hw).1, ?_⟩
+  simp [State.change]
+
+/-- an accepted subscription gets the next id; ids are never reused -/
+theorem sub_id_fresh (s : State) (now fab peer mn mx ev id : Nat)
+    (h : (s.add now fab peer mn mx ev).2 = some id) :
+    id = s.nextSubId ∧ (s.add now fab peer mn mx ev).1.nextSubId = s.nextSubId + 1 := by
+  unfold State.add at h ⊢
+  split at h
+  · simp at h
+  · rename_i hc
+    simp only [hc, if_false]
+    simp at h
+    exact ⟨h.symm, trivial⟩
+
+theorem removeLoop_length (p : Sub → Bool) : ∀ (fuel : Nat) (subs : List Sub) (count : Nat),
+    (removeLoop p fuel subs count).1.length ≤ subs.length := by
+  intro fuel
+  induction fuel with
+  | zero => intro subs count; simp [removeLoop]
+  | succ fuel ih =>
+    intro subs count
+    simp only [removeLoop]
+    cases hf : subs.findIdx? p with
+    | none => simp
+    | some i =>
+      simp only
+      have hi : i < subs.length := (List.findIdx?_eq_some_iff_findIdx_eq.mp hf).1
+      have hl := length_swapRemove hi
+      have := ih (swapRemove subs i) (count - 1)
+      omega
+
+/-- the subscription count (table + in flight) never exceeds `N` -/
+theorem table_capacity {s : State} (op : Op) (hw : WF s) (h : s.count ≤ s.n) :
+    (s.step op).count ≤ (s.step op).n := by
+  cases op with
+  | change p => simpa [State.step, State.change] using h
+  | add now fab peer mn mx ev =>
+    simp only [State.step, State.add]
+    split
+    · exact h
+    · simp only; omega
+  | report now ev =>
+    simp only [State.step]
+    rcases report_shape (s := s) (now := now) (ev := ev) with h1 | ⟨i, sub, _, h1⟩
+    · rw [h1]; exact h
+    · rw [h1]; simpa [reportTo] using h
+  | fin id f =>
+    simp only [State.step]
+    rcases fin_shape (s := s) (id := id) (f := f) with h1 | ⟨c, _, sub', _, hsh, _⟩
+    · rw [h1]; exact h
+    · rcases hsh with ⟨r, cx, h1⟩ | ⟨r, cx, h1⟩ <;> rw [h1] <;> simp [rcKeep, rcDrop] <;> omega
+  | remove p =>
+    simp only [State.step]
+    obtain ⟨cx, h1⟩ := remove_shape s p
+    rw [h1]
+    have := (removeLoop_spec p (s.subs.length + 1) s.subs s.count (by have := hw.count; omega)).2
+    have hl := removeLoop_length p (s.subs.length + 1) s.subs s.count
+    simp only [rmTo]
+    omega
+  | purge =>
+    simp only [State.step, State.purge]
+    repeat' split
+    all_goals simpa using h
+
+/-! ## (6) events -/
+
+/-- with no attribute change pending, a subscription is pending exactly when the event watermark
+has moved past what it has seen -/
+theorem event_pending_iff (x : Sub) (ev : Nat) : x.pending [] ev = true ↔ x.seenEv < ev := by
+  simp [Sub.pending, anySince]
+
+/-- a delivered report consumes the events up to the watermark captured at its begin; later events
+(a larger watermark) are pending again -/
+theorem events_not_pending_after_keep (c : Ctx) (ev : Nat) :
+    c.commit.pending [] ev = true ↔ c.nextEv < ev := by
+  simp only [Sub.pending, anySince, Ctx.commit, List.any_nil, Bool.false_or]
+  exact decide_eq_true_iff
+
+/-! ## The two defects of the unrepaired code, as counter-examples on the model -/
+
+def P (e c a : Nat) : Entry := { ep := e, cl := c, attr := a, id := 0 }
+
+/-- the priming of subscriber 1 is in flight (outside the table) when a change is recorded -/
+def witness : State := ((State.new 1000000 1).add 0 1 10 1 60 0).1.change (P 1 2 3)
+
+/-- subscriber 1 while it is priming -/
+def sub1 : Sub :=
+  { id := 1, fab := 1, peer := 10, minInt := 1, maxInt := 60, reportedAt := IMAX, retryAt := 0, fail := 0, seenAttr := 0, seenEv := 0 }
+/-- subscriber 1 after its priming was acknowledged at instant 0 -/
+def sub1' : Sub :=
+  { id := 1, fab := 1, peer := 10, minInt := 1, maxInt := 60, reportedAt := 0, retryAt := 0, fail := 0, seenAttr := 0, seenEv := 0 }
+/-- the priming context of subscriber 2 in `witness2` -/
+def ctx2 : Ctx :=
+  { sub := { id := 2, fab := 1, peer := 10, minInt := 1, maxInt := 60, reportedAt := IMAX, retryAt := 0, fail := 0, seenAttr := 1, seenEv := 0 }, nextAttr := 1, nextEv := 0, nextReportedAt := 6000000, nextRetryAt := 0, nextFail := 0 }
+
+theorem witness_ok : WF witness ∧ Cov witness := by
+  have h0 := inv_init 1000000 1
+  have h1 := inv_step (.add 0 1 10 1 60 0) h0.1 h0.2 (by decide)
+  exact inv_step (.change (P 1 2 3)) h1.1 h1.2 (by decide)
+
+/-- **Defect 1** (before `fix: do not purge pending attribute changes while a subscription is outside
+the table`): the old purge breaks the coverage invariant on the witness — the change is dropped
+while the only subscriber is priming, and is then never reported. -/
+theorem purgeOld_breaks_cov : WF witness ∧ Cov witness ∧ ¬ Cov witness.purgeOld := by
+  refine ⟨witness_ok.1, witness_ok.2, ?_⟩
+  intro h
+  have hlive : sub1 ∈ witness.purgeOld.live := by decide
+  obtain ⟨e, he, _⟩ := h _ hlive (1, P 1 2 3) (by decide) (by decide)
+  have : witness.purgeOld.changed.entries = [] := by rfl
+  rw [this] at he
+  simp at he
+
+/-- … and what the subscriber sees: after its priming is acknowledged nothing is pending for it, no
+report is ever begun for the change; with the repaired purge the change is reported. -/
+theorem purgeOld_loses_change :
+    ((witness.purgeOld.fin 1 .keep).1.report 5000000 0).2 = none ∧
+    ((witness.purge.fin 1 .keep).1.report 5000000 0).2 = some 1 := by
+  constructor <;> rfl
+
+/-- subscriber 1 is being reported on and is cancelled by a removal (a new subscribe request of its
+peer); the priming context of subscriber 2 completes first -/
+def witness2 : State :=
+  let s1 := ((State.new 1000000 2).add 0 1 10 1 60 0).1
+  let s2 := (s1.fin 1 .keep).1.change (P 1 2 3)
+  let s3 := (s2.report 5000000 0).1
+  let s4 := (s3.remove (fun x => x.peer == 10)).1
+  (s4.add 6000000 1 10 1 60 0).1
+
+/-- **Defect 2** (before `fix: a priming context must not consume the in-flight report slot or its
+cancellation`): with the old `report_complete` the freshly primed subscription 2 is dropped and the
+cancelled subscription 1 comes back; the repaired one keeps 2 and drops 1. -/
+theorem reportCompleteOld_drops_wrong_sub :
+    ctx2 ∈ witness2.ctxs ∧
+    (witness2.reportCompleteOld ctx2.commit true).subs.map (·.id) = [] ∧
+    (witness2.reportCompleteOld ctx2.commit true).cancelled = false ∧
+    (((witness2.fin 2 .keep).1.fin 1 .keep).1.subs.map (·.id)) = [2] := by
+  refine ⟨by decide, by rfl, by rfl, by rfl⟩
+
+/-! ## Eventuality -/
+
+/-- the state after the first `k` operations of an infinite schedule -/
+def stateAt (hz n : Nat) (sched : Nat → Op) : Nat → State
+  | 0 => State.new hz n
+  | k + 1 => (stateAt hz n sched k).step (sched k)
+
+/-- subscription `id` still owes change `i` in state `s` -/
+def Owes (s : State) (id i : Nat) : Prop := ∃ x ∈ s.live, x.id = id ∧ x.seenAttr < i
+
+/-- Fairness (a hypothesis about the reporter task and the transport, outside the model): every
+live subscription is, again and again, either ended or the subject of a report that begins later
+and is acknowledged (`fin … keep`). -/
+def Fair (hz n : Nat) (sched : Nat → Op) : Prop :=
+  ∀ k id, (∃ x ∈ (stateAt hz n sched k).live, x.id = id) →
+    ∃ k1 k2, k ≤ k1 ∧ k1 < k2 ∧
+      ((¬ ∃ x ∈ (stateAt hz n sched k2).live, x.id = id) ∨
+       ((∃ now ev, sched k1 = .report now ev ∧ ((stateAt hz n sched k1).report now ev).2 = some id) ∧
+        sched k2 = .fin id .keep ∧
+        ∀ j, k1 < j → j < k2 → sched j ≠ .fin id .retry ∧ sched j ≠ .fin id .drop))
+
+/-- **Full statement** (not proved: it needs `Fair`, whose discharge is the scheduling of the
+reporter task and the behaviour of the transport): along every fair schedule without id wrap, every
+change a live subscriber owes is eventually acknowledged, or the subscription ends. -/
+def C13_full : Prop :=
+  ∀ (hz n : Nat) (sched : Nat → Op), Fair hz n sched →
+    (∀ k, (stateAt hz n sched k).changed.nextId + 1 < U64) →
+    ∀ k id i, Owes (stateAt hz n sched k) id i → (∃ p, (i, p) ∈ (stateAt hz n sched k).log) →
+      ∃ k', k ≤ k' ∧ ¬ Owes (stateAt hz n sched k') id i
+
+/-- the invariant along a schedule -/
+theorem inv_stateAt (hz n : Nat) (sched : Nat → Op)
+    (hw : ∀ k, (stateAt hz n sched k).changed.nextId + 1 < U64) :
+    ∀ k, WF (stateAt hz n sched k) ∧ Cov (stateAt hz n sched k) := by
+  intro k
+  induction k with
+  | zero => exact inv_init hz n
+  | succ k ih => exact inv_step (sched k) ih.1 ih.2 (hw k)
+
+/-- **Proved part of the eventuality** (one reporting cycle, no fairness needed): in every reachable
+state, for a subscription `x` of the table that owes change `(i, p)`:
+* it is pending, hence reportable once `report_allowed_at ≤ now`, a report is then begun and the
+  reporter does not sleep past that instant;
+* if the report that is begun is `x`'s, its context selects every attribute touched by `p`
+  (and keeps doing so in every later state while it is in flight, by `owed_in_report`), and the
+  watermark it will commit on acknowledgement is at least `i`;
+* if it fails instead (`retry`), `x` comes back with the same watermark, i.e. it still owes `(i, p)`
+  and `(i, p)` is still covered. -/
+theorem C13_eventual_partial (hz n : Nat) (sched : Nat → Op)
+    (hw : ∀ k, (stateAt hz n sched k).changed.nextId + 1 < U64) (k : Nat)
+    {x : Sub} (hx : x ∈ (stateAt hz n sched k).subs) {i : Nat} {p : Entry}
+    (hlog : (i, p) ∈ (stateAt hz n sched k).log) (hlt : x.seenAttr < i) (now ev : Nat)
+    (ha : x.reportAllowedAt (stateAt hz n sched k).hz ≤ now) :
+    let s := stateAt hz n sched k
+    (s.report now ev).2 ≠ none ∧
+    s.nextReportAt ev ≤ x.reportAllowedAt s.hz ∧
+    (∀ c ∈ (s.report now ev).1.ctxs, c.sub = x →
+      (∀ ep cl attr, p.matchesPath ep cl attr = true → (s.report now ev).1.shouldReportAttr c ep cl attr = true) ∧
+      (c ∉ s.ctxs → i ≤ c.commit.seenAttr) ∧
+      (c.setKeepRetry s.hz).commit.seenAttr = x.seenAttr) := by
+  intro s
+  obtain ⟨hwf, hcov⟩ := inv_stateAt hz n sched hw k
+  have hpend := owed_is_pending hcov hx hlog hlt ev
+  refine ⟨report_progress ⟨x, hx, pending_is_reportable _ x now _ ev hpend ha⟩,
+    wake_not_late hx ev hpend, ?_⟩
+  intro c hc hcx
+  have hcov' : Cov (s.report now ev).1 := cov_report now ev hcov
+  have hlog' : (i, p) ∈ (s.report now ev).1.log := by
+    rcases report_shape (s := s) (now := now) (ev := ev) with h1 | ⟨j, sub, _, h1⟩
+    · rw [h1]; exact hlog
+    · rw [h1]; exact hlog
+  refine ⟨?_, ?_, ?_⟩
+  · intro ep cl attr hm
+    exact owed_in_report hcov' hc hlog' (by rw [hcx]; exact hlt) hm
+  · intro hnew
+    rcases report_shape (s := s) (now := now) (ev := ev) with h1 | ⟨j, sub, _, h1⟩
+    · rw [h1] at hc; exact absurd hc hnew
+    · rw [h1] at hc
+      simp only [reportTo, List.mem_append, List.mem_singleton] at hc
+      rcases hc with hc | hc
+      · exact absurd hc hnew
+      · subst hc
+        show i ≤ (stateAt hz n sched k).changed.watermark
+        have h3 := watermark_eq hwf.nextPos hwf.nextLt
+        have h4 := hwf.logBelow (i, p) hlog
+        simp only at h4
+        omega
+  · rw [← hcx]; simp [Ctx.setKeepRetry, Ctx.commit]
+
+example : ∃ (s : State) (x : Sub) (i : Nat) (p : Entry), WF s ∧ Cov s ∧ x ∈ s.subs ∧ (i, p) ∈ s.log ∧
+    x.seenAttr < i :=
+  ⟨(witness.purge.fin 1 .keep).1, sub1', 1, P 1 2 3,
+    (inv_step (.fin 1 .keep) (inv_step .purge witness_ok.1 witness_ok.2 (by decide)).1
+      (inv_step .purge witness_ok.1 witness_ok.2 (by decide)).2 (by decide)).1,
+    (inv_step (.fin 1 .keep) (inv_step .purge witness_ok.1 witness_ok.2 (by decide)).1
+      (inv_step .purge witness_ok.1 witness_ok.2 (by decide)).2 (by decide)).2,
+    by decide, by decide, by decide⟩
+
+end C13
